@@ -1,6 +1,7 @@
 import CollectionsC.Properties.C04
 import CollectionsC.Proofs.StableSortUnique
 import CollectionsC.Proofs.MergeSortCode
+import CollectionsC.Proofs.ListPrograms
 /-! # C18 (lists) — sorting yields an ordered permutation; `cc_list_sort_in_place` is stable
 
 Statements and closing proofs (helpers: `Proofs/MergeSort.lean`, `Proofs/DListMore.lean`,
@@ -20,13 +21,21 @@ Statements and closing proofs (helpers: `Proofs/MergeSort.lean`, `Proofs/DListMo
   specification level (`sort_in_place_code_eq`; this uses `r_size ≥ l_size`, without which the
   `r == r_size` break at `i == 0` would leave `*left` stale, and reflexivity of `cmp`, on which the
   loop relies when the left run is used up and both cursors stand on the same node); permutation,
-  sortedness, stability, consistent bookkeeping, identity on length ≤ 1, no allocator call.
-  What stays abstract is the raw `next`/`prev` surgery inside `link_behind` (checked on the heap
-  by the harness walker on every run).
+  sortedness, stability, consistent bookkeeping, identity on length ≤ 1.  The code-level model
+  threads the ledger `Mem`: every node dereference (`l_part->data`, `r_part->data`, the two
+  fast-forward walks of `merge`, the walk to `center` in `split`) is a checked access, and the
+  theorem says the allocator state comes back **unchanged** — no fault, no allocator call.
+  What stays abstract is the raw `next`/`prev` surgery inside `link_behind` (`Chain.moveBefore`,
+  which requires `dst < src`, as holds at its only call site; checked on the heap by the harness
+  walker on every run): the "both directions" conjunct is therefore at the level of the model only
+  (`sort_in_place_mirror_model`).
 * `cc_list_sort` / `cc_slist_sort` (array + `qsort`): `qsort` is the parameter `sortFn`; what is
   proved about the code is that the right elements go out and come back in order, with the
   documented statuses and a balanced ledger; ordered-permutation is then inherited from the
-  assumed contract of `sortFn` (trusted base). -/
+  assumed contract of `sortFn` (trusted base).  The comparator is not a parameter of these two
+  models: that the caller's `cmp` reaches `qsort(array, size, sizeof(void*), cmp)` in this argument
+  order is trusted (read off `cc_list.c` / `cc_slist.c`), not proved.  The contract is satisfiable:
+  `stableSort_meets_spec`. -/
 namespace CC.Properties.C18List
 open CC CC.Chain
 open CC.Spec
@@ -36,25 +45,25 @@ open CC.Spec.LSeq (CmpPreorder leOf)
 list state satisfying the invariant, the code-level model of `cc_list_sort_in_place` (counters,
 cursors, relinking, `break`s, `head`/`tail` assignments) ends in exactly the state of the
 specification-level model; all theorems below therefore hold for it. -/
-theorem sort_in_place_code_eq {cmp : Nat → Nat → Int} (hc : CmpPreorder cmp) (l : Chain) (h : l.Inv) :
-    DList.sortInPlaceC cmp l = DList.sortInPlace cmp l :=
-  DList.sortInPlaceC_eq hc l h
+theorem sort_in_place_code_eq {cmp : Nat → Nat → Int} (hc : CmpPreorder cmp) (l : Chain) (h : l.Inv) (m : Mem) :
+    DList.sortInPlaceC cmp l m = (DList.sortInPlace cmp l, m) :=
+  DList.sortInPlaceC_eq hc l h m
 
 /-- **`cc_list_sort_in_place`: ordered permutation, stable, bookkeeping right, no allocation.**
 For every total-preorder comparator and every list state satisfying the invariant:
-the result satisfies the invariant (so `size`, both ends and both traversal directions are
-consistent), its content is a permutation of the old content, no element compares greater than
+the result satisfies the invariant (so `size` and both ends are consistent, and the two model-level
+traversal directions agree), it stays on its allocator triple, its content is a permutation of the old content, no element compares greater than
 its successor, and every already-ordered subsequence of the input — in particular every pair of
 equal elements — keeps its relative order. -/
 theorem sort_in_place_correct {cmp : Nat → Nat → Int} (hc : CmpPreorder cmp) (l : Chain) (h : l.Inv) :
-    (DList.sortInPlace cmp l).Inv ∧
+    (DList.sortInPlace cmp l).Inv ∧ (DList.sortInPlace cmp l).triple = l.triple ∧
     (DList.sortInPlace cmp l).abs.Perm l.abs ∧
     (DList.sortInPlace cmp l).abs.Pairwise (fun a b => cmp a b ≤ 0) ∧
     (∀ c : List Nat, c.Sublist l.abs → c.Pairwise (fun a b => cmp a b ≤ 0) → c.Sublist (DList.sortInPlace cmp l).abs) := by
   rw [h.eq, DList.sortInPlace_ofList]
   have e : ∀ c : List Nat, c.Pairwise (fun a b => cmp a b ≤ 0) ↔ c.Pairwise (fun a b => leOf cmp a b = true) := by
     intro c; simp [leOf]
-  refine ⟨ofList_inv _, DList.msort_perm _ _, ?_, ?_⟩
+  refine ⟨ofList_inv _, rfl, DList.msort_perm _ _, ?_, ?_⟩
   · rw [ofList_abs, e]; exact DList.msort_sorted hc _ _ (Nat.le_refl _)
   · intro c hs hp
     rw [ofList_abs] at hs ⊢
@@ -64,19 +73,27 @@ theorem sort_in_place_correct {cmp : Nat → Nat → Int} (hc : CmpPreorder cmp)
 uniquely, so the in-place merge sort computes exactly `Spec.LSeq.stableSort` — the stable insertion
 sort that the correspondence check runs as the ideal list's sort (layer L1). -/
 theorem sort_in_place_refines {cmp : Nat → Nat → Int} (hc : CmpPreorder cmp) (l : Chain) (h : l.Inv) :
-    DList.sortInPlace cmp l = ofList (LSeq.stableSort cmp l.abs) := by
-  rw [h.eq, DList.sortInPlace_ofList, ofList_abs, DList.msort_eq_stableSort hc]
+    DList.sortInPlace cmp l = ofList l.triple (LSeq.stableSort cmp l.abs) := by
+  rw [h.eq, DList.sortInPlace_ofList, ofList_abs, ofList_triple, DList.msort_eq_stableSort hc]
 
 /-- stability in the usual wording: if `a` stands before `b` in the input and `cmp a b ≤ 0`
 (e.g. they compare equal), then `a` stands before `b` in the output -/
 theorem sort_in_place_stable_pair {cmp : Nat → Nat → Int} (hc : CmpPreorder cmp) (l : Chain) (h : l.Inv)
     (a b : Nat) (hab : cmp a b ≤ 0) (hs : [a, b].Sublist l.abs) : [a, b].Sublist (DList.sortInPlace cmp l).abs :=
-  (sort_in_place_correct hc l h).2.2.2 [a, b] hs (by simp [hab])
+  (sort_in_place_correct hc l h).2.2.2.2 [a, b] hs (by simp [hab])
 
-/-- both traversals are mirrors after the in-place sort -/
-theorem sort_in_place_mirror {cmp : Nat → Nat → Int} (hc : CmpPreorder cmp) (l : Chain) (h : l.Inv) :
+/-- both traversals are mirrors after the in-place sort — at the level of the model (stored `head`,
+`tail`, `size`; the raw `prev` links are not state, see `C04.mirror_model`) … -/
+theorem sort_in_place_mirror_model {cmp : Nat → Nat → Int} (hc : CmpPreorder cmp) (l : Chain) (h : l.Inv) :
     (DList.sortInPlace cmp l).backward = (DList.sortInPlace cmp l).forward.reverse :=
-  (C04.mirror _ (sort_in_place_correct hc l h).1).1
+  (C04.mirror_model _ (sort_in_place_correct hc l h).1).1
+
+/-- … and in terms of the C observers: after the in-place sort, a complete descending traversal
+(`cc_list_diter_next`) yields the reverse of a complete ascending traversal (`cc_list_iter_next`) -/
+theorem sort_in_place_traversals_mirror {cmp : Nat → Nat → Int} (hc : CmpPreorder cmp) (l : Chain) (h : l.Inv) (m : Mem) :
+    (DList.diterNexts (DList.sortInPlace cmp l) (DList.sortInPlace cmp l).size (DList.diterInit (DList.sortInPlace cmp l)) m).1 =
+      (DList.iterNexts (DList.sortInPlace cmp l) (DList.sortInPlace cmp l).size (DList.iterInit (DList.sortInPlace cmp l)) m).1.reverse :=
+  (C04.traversals_mirror _ (sort_in_place_correct hc l h).1 m).1
 
 /-- sorting an empty or single-element list changes nothing (the whole physical state), for every
 comparator, contract or not -/
@@ -93,78 +110,121 @@ structure SortFnSpec (cmp : Nat → Nat → Int) (sortFn : List Nat → List Nat
   perm : ∀ l, (sortFn l).Perm l
   sorted : ∀ l, (sortFn l).Pairwise (fun a b => cmp a b ≤ 0)
 
+/-- the contract is satisfiable for every total-preorder comparator: the reference stable sort meets it -/
+theorem stableSort_meets_spec {cmp : Nat → Nat → Int} (hc : CmpPreorder cmp) : SortFnSpec cmp (LSeq.stableSort cmp) := by
+  refine ⟨fun l => ?_, fun l => ?_⟩
+  · rw [← DList.msort_eq_stableSort hc]; exact DList.msort_perm _ _
+  · rw [← DList.msort_eq_stableSort hc]
+    have := DList.msort_sorted hc l.length l (Nat.le_refl _)
+    simpa [leOf] using this
+
 /-- **`cc_list_sort`** (array + `qsort`): an empty list is rejected unchanged; a refused array leaves
 the list unchanged with `CC_ERR_ALLOC`; otherwise the content becomes `sortFn content` — an ordered
 permutation by the contract of `qsort` — the invariant holds, and the array block is released. -/
 theorem dlist_sort_correct {cmp : Nat → Nat → Int} {sortFn : List Nat → List Nat} (hq : SortFnSpec cmp sortFn)
     (l : Chain) (m : Mem) (h : l.Inv) :
-    (DList.sort sortFn l m).2.1.Inv ∧ (DList.sort sortFn l m).2.2.fault = m.fault ∧
-    (DList.sort sortFn l m).2.2.live = m.live ∧
+    (DList.sort sortFn l m).2.1.Inv ∧ (DList.sort sortFn l m).2.1.triple = l.triple ∧
+    (DList.sort sortFn l m).2.2.fault = m.fault ∧
+    (∀ t, (DList.sort sortFn l m).2.2.liveT t = m.liveT t) ∧
     (l.abs = [] → DList.sort sortFn l m = (.errInvalidRange, l, m)) ∧
-    (l.abs ≠ [] → m.alloc.1 = false → (DList.sort sortFn l m).1 = .errAlloc ∧ (DList.sort sortFn l m).2.1 = l) ∧
-    (l.abs ≠ [] → m.alloc.1 = true → (DList.sort sortFn l m).1 = .ok ∧
+    (l.abs ≠ [] → (m.allocT l.triple).1 = false → (DList.sort sortFn l m).1 = .errAlloc ∧ (DList.sort sortFn l m).2.1 = l) ∧
+    (l.abs ≠ [] → (m.allocT l.triple).1 = true → (DList.sort sortFn l m).1 = .ok ∧
       (DList.sort sortFn l m).2.1.abs = sortFn l.abs ∧ (DList.sort sortFn l m).2.1.abs.Perm l.abs ∧
       (DList.sort sortFn l m).2.1.abs.Pairwise (fun a b => cmp a b ≤ 0)) := by
   have hlen : ∀ x, (sortFn x).length = x.length := fun x => (hq.perm x).length_eq
   rw [h.eq, DList.sort_ofList sortFn hlen]
-  simp only [ofList_abs, LSeq.sort]
+  simp only [ofList_abs, ofList_triple, LSeq.sort]
   by_cases he : l.abs = []
   · simp [he, ofList_inv]
-  · by_cases ha : m.alloc.1 = true
-    · have e1 := Mem.alloc_fst_true m ha
-      have e2 := Mem.free_live m.alloc.2 (by omega)
+  · by_cases ha : (m.allocT l.triple).1 = true
+    · have e1 := Mem.allocT_all_true m l.triple ha
+      have e2 := Mem.freeT_all (m.allocT l.triple).2 l.triple (by rw [e1.2.2]; simp)
       simp only [he, ha, false_and, if_false, if_true, Bool.not_false, and_false]
-      refine ⟨ofList_inv _, by rw [e2.2.1, e1.2.1], by rw [e2.1, e1.1]; omega, by simp, by simp, ?_⟩
-      intro _ _; refine ⟨?_, ?_, ?_, ?_⟩ <;> first | rfl | trivial | exact hq.perm _ | exact hq.sorted _
-    · have ha' : m.alloc.1 = false := by simpa using ha
-      have e1 := Mem.alloc_fst_false m ha'
+      refine ⟨ofList_inv _, rfl, by rw [e2.1, e1.1], ?_, by simp, by simp, ?_⟩
+      · intro t; have := e2.2.2 t; have := e1.2.2 t; omega
+      · intro _ _; refine ⟨?_, ?_, ?_, ?_⟩ <;> first | rfl | trivial | exact hq.perm _ | exact hq.sorted _
+    · have ha' : (m.allocT l.triple).1 = false := by simpa using ha
+      have e1 := Mem.allocT_all_false m l.triple ha'
       simp only [he, ha', false_and, if_false, if_true, Bool.false_eq_true]
-      exact ⟨ofList_inv _, e1.2.1, e1.1, by simp, by simp, by simp⟩
+      exact ⟨ofList_inv _, rfl, e1.1, e1.2.2, by simp, by simp, by simp⟩
+
+/-- a single-element `CC_List` is sorted through the array like any other: status `CC_OK` (if the
+array is granted), the list state is exactly what it was -/
+theorem dlist_sort_single {cmp : Nat → Nat → Int} {sortFn : List Nat → List Nat} (hq : SortFnSpec cmp sortFn)
+    (l : Chain) (m : Mem) (h : l.Inv) (h1 : l.abs.length = 1) (ha : (m.allocT l.triple).1 = true) :
+    (DList.sort sortFn l m).1 = .ok ∧ (DList.sort sortFn l m).2.1 = l := by
+  have hne : l.abs ≠ [] := by intro e; rw [e] at h1; cases h1
+  obtain ⟨hi, ht, _, _, _, _, hok⟩ := dlist_sort_correct hq l m h
+  obtain ⟨s1, s2, s3, _⟩ := hok hne ha
+  refine ⟨s1, ?_⟩
+  have : sortFn l.abs = l.abs := by
+    have hp := hq.perm l.abs
+    match hl : l.abs, h1 with
+    | [x], _ => rw [hl] at hp; exact List.perm_singleton.mp hp
+  exact hi.eq.trans ((by rw [ht, s2, this] : ofList _ _ = ofList l.triple l.abs).trans h.eq.symm)
 
 /-- **`cc_slist_sort`**: a one-element list returns at once; otherwise as for the doubly linked
 list, except that an empty list is sorted as a zero-length array (status `CC_OK`). -/
 theorem slist_sort_correct {cmp : Nat → Nat → Int} {sortFn : List Nat → List Nat} (hq : SortFnSpec cmp sortFn)
     (l : Chain) (m : Mem) (h : l.Inv) :
-    (SList.sort sortFn l m).2.1.Inv ∧ (SList.sort sortFn l m).2.2.fault = m.fault ∧
-    (SList.sort sortFn l m).2.2.live = m.live ∧
+    (SList.sort sortFn l m).2.1.Inv ∧ (SList.sort sortFn l m).2.1.triple = l.triple ∧
+    (SList.sort sortFn l m).2.2.fault = m.fault ∧
+    (∀ t, (SList.sort sortFn l m).2.2.liveT t = m.liveT t) ∧
     (l.abs.length = 1 → SList.sort sortFn l m = (.ok, l, m)) ∧
-    (l.abs.length ≠ 1 → m.alloc.1 = false → (SList.sort sortFn l m).1 = .errAlloc ∧ (SList.sort sortFn l m).2.1 = l) ∧
-    (l.abs.length ≠ 1 → m.alloc.1 = true → (SList.sort sortFn l m).1 = .ok ∧
+    (l.abs.length ≠ 1 → (m.allocT l.triple).1 = false → (SList.sort sortFn l m).1 = .errAlloc ∧ (SList.sort sortFn l m).2.1 = l) ∧
+    (l.abs.length ≠ 1 → (m.allocT l.triple).1 = true → (SList.sort sortFn l m).1 = .ok ∧
       (SList.sort sortFn l m).2.1.abs = sortFn l.abs ∧ (SList.sort sortFn l m).2.1.abs.Perm l.abs ∧
       (SList.sort sortFn l m).2.1.abs.Pairwise (fun a b => cmp a b ≤ 0)) := by
   have hlen : ∀ x, (sortFn x).length = x.length := fun x => (hq.perm x).length_eq
   rw [h.eq, SList.sort_ofList sortFn hlen]
-  simp only [ofList_abs]
+  simp only [ofList_abs, ofList_triple]
   by_cases he : l.abs.length = 1
   · simp [he, ofList_inv]
-  · by_cases ha : m.alloc.1 = true
-    · have e1 := Mem.alloc_fst_true m ha
-      have e2 := Mem.free_live m.alloc.2 (by omega)
+  · by_cases ha : (m.allocT l.triple).1 = true
+    · have e1 := Mem.allocT_all_true m l.triple ha
+      have e2 := Mem.freeT_all (m.allocT l.triple).2 l.triple (by rw [e1.2.2]; simp)
       simp only [he, ha, if_false, if_true]
-      refine ⟨ofList_inv _, by rw [e2.2.1, e1.2.1], by rw [e2.1, e1.1]; omega, by simp, by simp, ?_⟩
-      intro _ _; refine ⟨?_, ?_, ?_, ?_⟩ <;> first | rfl | trivial | exact hq.perm _ | exact hq.sorted _
-    · have ha' : m.alloc.1 = false := by simpa using ha
-      have e1 := Mem.alloc_fst_false m ha'
+      refine ⟨ofList_inv _, rfl, by rw [e2.1, e1.1], ?_, by simp, by simp, ?_⟩
+      · intro t; have := e2.2.2 t; have := e1.2.2 t; omega
+      · intro _ _; refine ⟨?_, ?_, ?_, ?_⟩ <;> first | rfl | trivial | exact hq.perm _ | exact hq.sorted _
+    · have ha' : (m.allocT l.triple).1 = false := by simpa using ha
+      have e1 := Mem.allocT_all_false m l.triple ha'
       simp only [he, ha', if_false, Bool.false_eq_true]
-      exact ⟨ofList_inv _, e1.2.1, e1.1, by simp, by simp, by simp⟩
+      exact ⟨ofList_inv _, rfl, e1.1, e1.2.2, by simp, by simp, by simp⟩
 
-/-- the summary for the code-level model: invariant, ordered stable permutation, equal to the
-reference stable sort of the ideal list -/
-theorem sort_in_place_code_correct {cmp : Nat → Nat → Int} (hc : CmpPreorder cmp) (l : Chain) (h : l.Inv) :
-    (DList.sortInPlaceC cmp l).Inv ∧ DList.sortInPlaceC cmp l = ofList (LSeq.stableSort cmp l.abs) ∧
-    (DList.sortInPlaceC cmp l).abs.Perm l.abs ∧
-    (DList.sortInPlaceC cmp l).abs.Pairwise (fun a b => cmp a b ≤ 0) ∧
-    (∀ c : List Nat, c.Sublist l.abs → c.Pairwise (fun a b => cmp a b ≤ 0) → c.Sublist (DList.sortInPlaceC cmp l).abs) := by
-  rw [sort_in_place_code_eq hc l h]
+/-- an empty `CC_SList` is sorted as a zero-length array: status `CC_OK` (if the array is granted),
+the list state is exactly what it was -/
+theorem slist_sort_empty {cmp : Nat → Nat → Int} {sortFn : List Nat → List Nat} (hq : SortFnSpec cmp sortFn)
+    (l : Chain) (m : Mem) (h : l.Inv) (h0 : l.abs = []) (ha : (m.allocT l.triple).1 = true) :
+    (SList.sort sortFn l m).1 = .ok ∧ (SList.sort sortFn l m).2.1 = l := by
+  obtain ⟨hi, ht, _, _, _, _, hok⟩ := slist_sort_correct hq l m h
+  obtain ⟨s1, s2, _, _⟩ := hok (by rw [h0]; simp) ha
+  refine ⟨s1, ?_⟩
+  have : sortFn l.abs = l.abs := by
+    have hp := hq.perm l.abs
+    rw [h0] at hp ⊢; exact List.perm_nil.mp hp |> fun e => e
+  exact hi.eq.trans ((by rw [ht, s2, this] : ofList _ _ = ofList l.triple l.abs).trans h.eq.symm)
+
+/-- the summary for the code-level model: the allocator state comes back unchanged (no checked
+access faulted — no NULL or stale node was dereferenced —, nothing was allocated or released),
+invariant, ordered stable permutation, equal to the reference stable sort of the ideal list -/
+theorem sort_in_place_code_correct {cmp : Nat → Nat → Int} (hc : CmpPreorder cmp) (l : Chain) (h : l.Inv) (m : Mem) :
+    (DList.sortInPlaceC cmp l m).2 = m ∧
+    (DList.sortInPlaceC cmp l m).1.Inv ∧ (DList.sortInPlaceC cmp l m).1 = ofList l.triple (LSeq.stableSort cmp l.abs) ∧
+    (DList.sortInPlaceC cmp l m).1.abs.Perm l.abs ∧
+    (DList.sortInPlaceC cmp l m).1.abs.Pairwise (fun a b => cmp a b ≤ 0) ∧
+    (∀ c : List Nat, c.Sublist l.abs → c.Pairwise (fun a b => cmp a b ≤ 0) → c.Sublist (DList.sortInPlaceC cmp l m).1.abs) := by
+  rw [sort_in_place_code_eq hc l h m]
   have := sort_in_place_correct hc l h
-  exact ⟨this.1, sort_in_place_refines hc l h, this.2.1, this.2.2.1, this.2.2.2⟩
+  exact ⟨rfl, this.1, sort_in_place_refines hc l h, this.2.2.1, this.2.2.2.1, this.2.2.2.2⟩
 
 /-! ## Non-vacuity: a state with ties under the key comparator; payloads show the stable order -/
-example : (ofList [31, 12, 21, 11, 32]).Inv ∧
-    (DList.sortInPlace LSeq.cmpKey (ofList [31, 12, 21, 11, 32])).abs = [31, 21, 11, 12, 32] := by
+example : (ofList .conf [31, 12, 21, 11, 32]).Inv ∧
+    (DList.sortInPlace LSeq.cmpKey (ofList .conf [31, 12, 21, 11, 32])).abs = [31, 21, 11, 12, 32] := by
   refine ⟨ofList_inv _, ?_⟩
   simp [DList.sortInPlace, DList.msort, ofList, LSeq.cmpKey, LSeq.cmpNum, List.merge, Chain.abs]
 
-example : (DList.sortInPlaceC LSeq.cmpKey (ofList [31, 12, 21, 11, 32])).abs = [31, 21, 11, 12, 32] := by decide
+example : ((DList.sortInPlaceC LSeq.cmpKey (ofList .libc [31, 12, 21, 11, 32]) {}).1.abs,
+    (DList.sortInPlaceC LSeq.cmpKey (ofList .libc [31, 12, 21, 11, 32]) {}).2.fault) = ([31, 21, 11, 12, 32], false) := by decide
 
 end CC.Properties.C18List
